@@ -250,7 +250,28 @@ def run_C06(tier, rnd, st, res):
         b = bytes(rnd.choice([0x5d, 0xba, 0x17, 0x45, 0xd1, 0x74, 0x2e, 0x8b, 0xa2, 0xe8, 0x00, 0xff]) for _ in range(n))
         cases.append(Case(b, dict(mode='byte', micro=False), 'n3-rich'))
     cases = sweep(cases, st, res, ['c06'], want_c06=True)
-    finish(res, cases, 'all requested masks on several sizes; automatic mask on small symbols, every version, and contents rich in 1:1:3:1:1 '
+    # requested masks through make_sequence (single-symbol shortcut and real sequences)
+    seq_lines, seq_info = [], []
+    for _ in range(40 if tier == 'quick' else 400):
+        v = rnd.choice([1, 2, 3, 5, 7])
+        k = rnd.randrange(8)
+        n = rnd.choice([3, 8, 15, rnd.randint(1, 60 * v)])
+        content = content_for(rnd, rnd.choice([1, 2]), n)
+        kw = dict(version=v, mask=k) if rnd.random() < 0.7 else dict(symbol_count=rnd.randint(1, 3), mask=k)
+        try:
+            seq = segno.make_sequence(content, **kw)
+        except ValueError:
+            continue
+        res.evaluations += 1
+        for q in seq:
+            seq_lines.append(f'sym id={len(seq_lines)} m={matrix_str(q.matrix)} reqmask={k}')
+            seq_info.append((content, kw))
+    for o, (content, kw) in zip(run_lines_parallel(JUDGE, seq_lines), seq_info):
+        kv = parse_kv(o)
+        if kv.get('c06') != 'ok':
+            res.violations.append(dict(property_field='c06', verdict=kv.get('c06'), call=f'segno.make_sequence({content!r}, **{kw!r})',
+                                       replay=dict(content=content, kw=kw, api='make_sequence'), judge={k2: kv[k2] for k2 in kv if k2 not in ('cw', 'bytes')}, known_id=None))
+    finish(res, cases, 'all requested masks on several sizes (also through make_sequence); automatic mask on small symbols, every version, and contents rich in 1:1:3:1:1 '
            'patterns; every candidate re-scored by the ISO spec; distinct by (version, level, mask, segments, end)')
 
 
